@@ -678,7 +678,17 @@ class C14(MotionMonitor):
         regs, g = gen_program(rnd, feats, st, nsteps=rnd.randint(10, 40))
         steps = [["event", "PrintStarted"]]
         paused = False
-        for x in g.steps:
+        prog = list(g.steps)
+        if rnd.random() < 0.25:
+            # the job is abandoned where it stands (exclusion possibly switched off, possibly inside a region) and started again
+            # from the top without any end event in between: the second run owes nothing to the first
+            _, g2 = gen_program(rnd, dict(feats), st, nsteps=rnd.randint(8, 30), regions=regs)
+            prog += [["event", "PrintStarted"], ["g", "G21"], ["g", "G90"]] + list(g2.steps[:1]) + [["g", "G92 E0"]] + list(g2.steps[1:])
+        for x in prog:
+            if x[0] == "event":
+                steps.append(x)
+                paused = False
+                continue
             if x[0] not in ("g", "at"):
                 continue
             # the job is paused and resumed now and then (pause / resume do not end it); @-commands sent in between count
